@@ -7,10 +7,11 @@
    interleaved.  The trace is accepted iff every call's result and projected state are the
    model's, every Dealloc releases a live block, and nothing is live after Free. *)
 EXTENDS Reader, TLC, Json, IOUtils
-CONSTANT CHECK_LEAKS    \* TRUE: the release guarantee of C20 is part of acceptance
+CONSTANTS CHECK_LEAKS,   \* TRUE: the release guarantee of C20 is part of acceptance
+          CHECK_WORK     \* TRUE: the work and heap bounds of C13 are part of acceptance
 Trc == ndJsonDeserialize(IOEnv.TRACE)
-VARIABLES l, heap, files
-tvars == <<arc, policy, b, r, dirStack, deferred, refs, done, live, mis, l, heap, files>>
+VARIABLES l, heap, files, w     \* w: work accounting for C13: [alen, nops, out]
+tvars == <<arc, policy, b, r, dirStack, deferred, refs, done, live, mis, l, heap, files, w>>
 Ev == Trc[l]
 IsEvent(e) == l <= Len(Trc) /\ Ev.e = e /\ l' = l + 1
 Has(f) == f \in DOMAIN Ev
@@ -18,7 +19,7 @@ Has(f) == f \in DOMAIN Ev
 \* failing path; IF, not disjunction, so that TLC does not explore both sides)
 Chk(what, cond) == IF cond THEN TRUE ELSE PrintT(<<"MISMATCH", what, "line", l>>) /\ FALSE
 
-TInit == /\ RInit(<<>>, "EOD") /\ l = 1 /\ heap = {} /\ files = {}
+TInit == /\ RInit(<<>>, "EOD") /\ l = 1 /\ heap = {} /\ files = {} /\ w = [alen |-> 0, nops |-> 0, out |-> 0]
 
 Pol(p) == IF p = "plain" THEN "PLAIN" ELSE IF p = "eof" THEN "EOF" ELSE "EOD"
 
@@ -56,6 +57,8 @@ ProjOK ==
   /\ Chk("deferred", Len(p.deferred) = Len(deferred') /\ \A i \in 1..Len(deferred') : p.deferred[i] = <<arc[deferred'[i]].id, refs'[deferred'[i]]>>)
 
 \* compressed bytes consumed during the call, read off the projection
+\* did the basic reader latch eof during this call? (read off the projection)
+EofNow == Ev.proj.beof /\ ~b.eof
 Consumed == IF b.idx # 0 /\ Ev.proj.bcur # "" THEN b.rem - Ev.proj.rem ELSE 0
 
 TNext == /\ IsEvent("Next")
@@ -67,7 +70,7 @@ TNext == /\ IsEvent("Next")
 
 TRead == /\ IsEvent("Read")
          /\ Chk("read.consumed", Consumed >= 0)
-         /\ ReadWith(Ev.k, Consumed, AllocOk)
+         /\ ReadWith(Ev.k, Consumed, AllocOk, EofNow)
          /\ LET want == ReadResult(Ev.k, AllocOk)
             IN /\ Chk("read.n", Ev.n = Len(want))
                /\ Chk("read.bytes", Has("bytes") => Ev.bytes = want)
@@ -76,7 +79,7 @@ TRead == /\ IsEvent("Read")
 
 TCheck == /\ IsEvent("Check")
           /\ Consumed >= 0
-          /\ CheckWith(Consumed, AllocOk)
+          /\ CheckWith(Consumed, AllocOk, EofNow)
           /\ Chk("check.res", Ev.res = CheckResult(AllocOk))
           /\ ProjOK
           /\ UNCHANGED <<heap, files>>
@@ -88,7 +91,7 @@ FsOf == IF r.ctype = "NORMAL" /\ arc[r.cur].kind = "dir"
 
 TExtract == /\ IsEvent("Extract")
             /\ Consumed >= 0
-            /\ ExtractWith(FsOf, Consumed, AllocOk)
+            /\ ExtractWith(FsOf, Consumed, AllocOk, EofNow)
             /\ Chk("extract.res", Ev.res = ExtractResult(FsOf, AllocOk))
             /\ ProjOK
             /\ UNCHANGED <<heap, files>>
@@ -101,10 +104,30 @@ TFree == /\ IsEvent("Free")
          /\ CHECK_LEAKS => (heap = {} /\ files = {} /\ Ev.liveBlocks = 0 /\ Ev.liveFiles = 0)
          /\ UNCHANGED <<heap, files>>
 
-TNext_ == TReset \/ TAlloc \/ TDealloc \/ TFopen \/ TFclose \/ TFail \/ TNew
-          \/ TNext \/ TRead \/ TCheck \/ TExtract \/ TSetPolicy \/ TFree
+\* C13: work and heap bounds, evaluated on every call that carries the counters.  `alen` (bytes
+\* present in the input) comes with the Reset line; calls/req count the read/skip callbacks made so
+\* far and the bytes they were asked for; out = bytes of output requested by the caller so far.
+WorkOK(e, alen, nops, out) ==
+  /\ ("calls" \in DOMAIN e) => e.calls <= 2 * alen + 64 * nops + 256
+  \* (a single header may legitimately ask for up to its 1 MiB cap in one request, whatever is there)
+  /\ ("req" \in DOMAIN e) => e.req <= 3 * alen + out + (1048576 + 8192) * nops + 65536
+  /\ ("peak" \in DOMAIN e) => e.peak <= 8388608 + 2 * alen
+\* work accounting (every line) and the C13 bounds (lines that carry counters)
+WStep ==
+  /\ w' = IF Ev.e = "Reset" THEN [alen |-> IF Has("alen") THEN Ev.alen ELSE 0, nops |-> 0, out |-> 0]
+          ELSE IF Ev.e \in {"Next", "Read", "Check", "Extract", "Free"}
+               THEN [w EXCEPT !.nops = @ + 1, !.out = @ + (IF Ev.e = "Read" THEN Ev.k ELSE 0)]
+               ELSE w
+  /\ CHECK_WORK => Chk("work/heap bound (C13)", WorkOK(Ev, w'.alen, w'.nops, w'.out))
+TBudget == FALSE    \* a Budget line (the driver's deterministic step budget was exhausted) matches no action
+
+TNext_ == /\ (TReset \/ TAlloc \/ TDealloc \/ TFopen \/ TFclose \/ TFail \/ TNew
+             \/ TNext \/ TRead \/ TCheck \/ TExtract \/ TSetPolicy \/ TFree)
+          /\ WStep
 \* end of archive is sticky within one execution
 EofStickyT == [][(r.ctype = "EOF" /\ l <= Len(Trc) /\ Trc[l].e # "Reset") => r'.ctype = "EOF"]_tvars
+\* the ground truth (with all member data) is fixed between Resets: keep it out of the fingerprint
+TView == <<policy, b, r, dirStack, deferred, refs, done, live, mis, l, heap, files, w>>
 TSpec == TInit /\ [][TNext_]_tvars
 Accepted == LET dd == TLCGet("stats").diameter - 1
             IN IF dd = Len(Trc) THEN TRUE ELSE PrintT(<<"REJECTED_AT_LINE", dd + 1>>) /\ FALSE
